@@ -260,6 +260,19 @@ def body(case, rec, exact=False):
                 exp[2] = got[2]
                 if got != exp:
                     raise Violation(f"chromosome report row {got} != {exp}")
+        # the same BuildAssembly asked again after its autosome prefix was changed: names follow the new prefix
+        other_prefix = next(p for p in ("CHR", "SUPER_", "LG_") if p != case["prefix"])
+        res.build.autosome_prefix = other_prefix
+        try:
+            again = res.build.assemblies_with_scaffolds_fused()
+        except Exception:  # noqa: BLE001
+            again = None
+        if again is not None:
+            assemblies2 = [(key, [{"name": s.name, "rank": s.rank, "orig": s.original_name,
+                                   "rows": conv.plain_rows(s.rows, with_tags=False)} for s in asm.scaffolds]) for key, asm in again.items()]
+            assemblies_obj = again
+            check(dict(case, prefix=other_prefix), assemblies2, res.build.assembly_stats, classes, exact)
+            classes.add("second_fuse_with_other_prefix")
     finally:
         assemblies_obj = None
         nt = ({"unlocs", "several_haplotigs"} <= classes and n_painted >= 3) or bool(classes & {"size_tie", "ten_or_more_autosomes"})
